@@ -1,5 +1,6 @@
 """C18: proof artefacts are emitted at exit only for successful runs, and completely."""
 import itertools
+import json
 import os
 import shutil
 import subprocess
@@ -18,7 +19,8 @@ RULE = ("fault enumeration: one fresh interpreter per (termination mode x statem
         "SystemExit / SystemExit(0) / SystemExit(3), builtin exit(0) / exit(3), an exception raised and caught, a "
         "sys.exit(3) caught by the script which then ends normally, and histories of two exit requests (a caught or "
         "thread-local sys.exit(0) followed by sys.exit(3) / a message / an exception, try: sys.exit(a) finally: sys.exit(b)). A prologue counts calls of backend.prove in a side "
-        "file. Oracle: the exit status is the one plain Python gives for that termination; status 0 and autoprove on => "
+        "file and an interface-level tap counts the constraints and values handed to the backend; a second statement flavour "
+        "mixes products with assert_ne / assert_nonzero / comparisons / secret divisions / bit decompositions. Oracle: the exit status is the one plain Python gives for that termination; status 0 and autoprove on => "
         "prove ran exactly once and the artefacts decode (independent decoders) to exactly the constraints of the "
         "statements executed; uncaught exception or status != 0 => prove did not run and no artefact exists; autoprove "
         "off => no artefact and no traceback from the exit hook on stderr. Non-trivial = termination before the end by a "
@@ -68,30 +70,56 @@ ARTEFACTS = {
 }
 
 
-def script(mode, k, n, autoprove):
+STATEMENTS = {
+    # flavour -> statement templates, cycled by position (i = position, a = i + 2, b = i + 3)
+    "mul": ["x{i} = PrivVal({a}) * PubVal({b})"],
+    "mixed": ["x{i} = PrivVal({a}) * PubVal({b})", "PrivVal({a} + 5).assert_ne(2)", "y{i} = PrivVal({a}) < PubVal({b} + 7)",
+              "PrivVal(12).assert_nonzero()", "z{i} = PrivVal({a} * 6) / PrivVal(3)", "w{i} = PrivVal({a}).to_bits()",
+              "v{i} = PrivVal({a}) != PrivVal({b})", "PubVal({a}).assert_ne(PrivVal({b}))"],
+}
+
+
+def script(mode, k, n, autoprove, flavour="mul"):
     term = MODES[mode][0]
-    L = ["import sys", "import site", "import pysnark.runtime as rt", "from pysnark.runtime import PrivVal, PubVal",
+    stm = STATEMENTS[flavour]
+    L = ["import sys", "import site", "import json", "import pysnark.runtime as rt", "from pysnark.runtime import PrivVal, PubVal",
          "_orig = rt.backend.prove",
          "def _counted(*a, **kw):",
          "    open('prove_calls', 'a').write('x')",
          "    return _orig(*a, **kw)",
          "rt.backend.prove = _counted",
+         # an interface-level tap: what the script handed to the backend, counted independently of the artefacts
+         "_cnt = {'cons': 0, 'cons_ab': 0, 'vars': 0}",
+         "_oa, _opv, _opb = rt.backend.add_constraint, rt.backend.privval, rt.backend.pubval",
+         "def _ta(v, w, y):",
+         "    _cnt['cons'] += 1",
+         "    if str(v).strip() and str(w).strip(): _cnt['cons_ab'] += 1",
+         "    return _oa(v, w, y)",
+         "def _tpv(x):",
+         "    _cnt['vars'] += 1",
+         "    return _opv(x)",
+         "def _tpb(x):",
+         "    _cnt['vars'] += 1",
+         "    return _opb(x)",
+         "rt.backend.add_constraint, rt.backend.privval, rt.backend.pubval = _ta, _tpv, _tpb",
+         "def _done(k=1):",
+         "    open('executed', 'a').write('s' * k)",
+         "    open('counts', 'w').write(json.dumps(_cnt))",
          "rt.autoprove = %s" % autoprove,
-         "from builtins import exit" if False else "",
          "import builtins",
          "if not hasattr(builtins, 'exit'): site.setquit()"]
     if n > 50:
         # large trace: a loop instead of n source lines (only used with mode "end")
         L.append("for i in range(%d):" % n)
         L.append("    x = PrivVal(i + 2) * PubVal(i + 3)")
-        L.append("open('executed', 'a').write('s' * %d)" % n)
+        L.append("_done(%d)" % n)
         return "\n".join(L) + "\n"
     for i in range(n + 1):
         if i == k and term is not None:
             L.append(term)
         if i < n:
-            L.append("x%d = PrivVal(%d) * PubVal(%d)" % (i, i + 2, i + 3))
-            L.append("open('executed', 'a').write('s')")
+            L.append(stm[i % len(stm)].format(i=i, a=i + 2, b=i + 3))
+            L.append("_done()")
     return "\n".join(L) + "\n"
 
 
@@ -107,10 +135,11 @@ def run_case(case, tmp):
     mode, k, n, backend, autoprove = case["mode"], case["k"], case["n"], case["backend"], case["autoprove"]
     for f in os.listdir(tmp):
         os.remove(os.path.join(tmp, f))
-    open(os.path.join(tmp, "prog.py"), "w").write(script(mode, k, n, autoprove))
+    flavour = case.get("flavour", "mul")
+    open(os.path.join(tmp, "prog.py"), "w").write(script(mode, k, n, autoprove, flavour))
     envv = dict(os.environ)
     envv.update({"PYSNARK_BACKEND": backend, "QAPTOOLS_BIN": os.path.join(backends.SHIMS, "qapbin"),
-                 "PYTHONPATH": backends.REPO + os.pathsep + os.path.join(backends.SHIMS, "fb"),
+                 "PYTHONPATH": backends.REPO + os.pathsep + os.path.join(backends.SHIMS, "fb") + core.COVPATH,
                  "PYTHONDONTWRITEBYTECODE": "1", "PYTHONHASHSEED": "0"})
     try:
         r = subprocess.run([sys.executable, "prog.py"], cwd=tmp, env=envv, capture_output=True, text=True,
@@ -128,7 +157,11 @@ def run_case(case, tmp):
     want_exec = expected_executed(mode, k, n)
     if nexec != want_exec:
         raise core.HarnessError("script executed %d statements, model says %d (mode %s): %s" % (nexec, want_exec, mode, r.stderr[-300:]))
-    tag = "%s on %s (autoprove %s, %d of %d statements executed)" % (mode, backend, "on" if autoprove else "off", nexec, n)
+    tag = "%s on %s (autoprove %s, %d of %d %sstatements executed)" % (mode, backend, "on" if autoprove else "off", nexec, n,
+                                                                     "" if flavour == "mul" else flavour + " ")
+    cnt = json.loads(rd("counts")) if exists("counts") else {"cons": 0, "cons_ab": 0, "vars": 0}
+    if flavour == "mul" and (cnt["cons"], cnt["vars"]) != (nexec, 3 * nexec):
+        raise core.HarnessError("interface tap counted %r for %d product statements" % (cnt, nexec))
     # exit status
     if status == "sigint":
         ok_status = r.returncode in (-2, 130, 1)
@@ -161,8 +194,8 @@ def run_case(case, tmp):
             c = iden3.read_r1cs(rd("circuit.r1cs"))
             w = iden3.read_wtns(rd("witness.wtns"))
             ncons, nw = len(c["constraints"]), len(w["values"])
-            if ncons != nexec or nw != 1 + 3 * nexec:
-                return "%s: artefacts hold %d constraints / %d wires, the executed statements traced %d / %d" % (tag, ncons, nw, nexec, 1 + 3 * nexec), "incomplete-artefact"
+            if ncons != cnt["cons"] or nw != 1 + cnt["vars"]:
+                return "%s: artefacts hold %d constraints / %d wires, the executed statements traced %d / %d" % (tag, ncons, nw, cnt["cons"], 1 + cnt["vars"]), "incomplete-artefact"
         elif backend == "zkinterface":
             for f, kinds in (("computation.zkif", ["CircuitHeader", "Witness", "ConstraintSystem"]), ("circuit.zkif", ["CircuitHeader", "ConstraintSystem"])):
                 msgs = fbreader.read_file(rd(f))
@@ -171,15 +204,15 @@ def run_case(case, tmp):
                 if ncs < 1 or got != kinds[:-1] + ["ConstraintSystem"] * ncs:
                     return "%s: %s has messages %r" % (tag, f, got), "incomplete-artefact"
                 ncons = sum(len(m[1]["constraints"]) for m in msgs if m[0] == "ConstraintSystem")
-                if ncons != nexec:
-                    return "%s: %s holds %d constraints, %d statements were executed" % (tag, f, ncons, nexec), "incomplete-artefact"
+                if ncons != cnt["cons"]:
+                    return "%s: %s holds %d constraints, the executed statements traced %d" % (tag, f, ncons, cnt["cons"]), "incomplete-artefact"
         else:
             if not exists("pysnark_eqs_main") or not exists("pysnark_schedule"):
                 return "%s: proving step ran but wrote no per-function equation file / schedule" % tag, "incomplete-artefact"
             eqs = qapfiles.parse_eqs(rd("pysnark_eqs_main").decode())
             ncons = len([e for e in eqs if e[0] == "eq" and e[1] and e[2]])
-            if ncons != nexec:
-                return "%s: pysnark_eqs_main holds %d product equations, %d statements were executed" % (tag, ncons, nexec), "incomplete-artefact"
+            if ncons != cnt["cons_ab"]:
+                return "%s: pysnark_eqs_main holds %d product equations, the executed statements traced %d" % (tag, ncons, cnt["cons_ab"]), "incomplete-artefact"
     except (iden3.FormatError, fbreader.FormatError, qapfiles.FormatError, OSError) as e:
         return "%s: artefact does not decode: %s" % (tag, e), "incomplete-artefact"
     return None, None
@@ -200,7 +233,8 @@ def shard(cases):
             if msg == "inconclusive":
                 stats.inconclusive[key] += 1
                 continue
-            stats.case(case, nt, ("mode:" + case["mode"], "backend:" + case["backend"], "autoprove:%s" % case["autoprove"]), sample_cap=2)
+            stats.case(case, nt, ("mode:" + case["mode"], "backend:" + case["backend"], "autoprove:%s" % case["autoprove"],
+                                  "statements:" + case.get("flavour", "mul")), sample_cap=2)
             if msg:
                 if key in known:
                     stats.excluded[key] += 1
@@ -243,6 +277,9 @@ def run(ctx):
             if MODES[mode][0] is None and k != n:
                 continue
             cases.append({"mode": mode, "k": k, "n": n, "backend": backend, "autoprove": ap})
+            # the same termination with other kinds of statements (assertions, comparisons, divisions, bit decompositions)
+            if ctx.tier != "quick" or k in (0, n):
+                cases.append({"mode": mode, "k": k, "n": n + 5 if ctx.tier == "quick" else n + 2, "backend": backend, "autoprove": ap, "flavour": "mixed"})
     jobs = [dict(cases=cases[i::16]) for i in range(16)]
     ctx.stats = core.run_shards("harness.checks.c18", "shard", jobs)
     ctx.exhaustive = True
